@@ -28,7 +28,7 @@ structure Cfg where
 deriving Inhabited
 
 inductive Op
-  | lex | less (n : Nat) | more | unput (c : Nat) | input | reject | begin_ (s : Nat) | push (s : Nat)
+  | lex (force : Bool) | less (n : Nat) /- keep `prefix + n mod (new part + 1)` characters -/ | more | unput (c : Nat) | input | reject | begin_ (s : Nat) | push (s : Nat)
   | pop | top | start | setbol (b : Nat) | atbol | ret (v : Int) | terminate | getlineno
   | setlineno (n : Nat) | grab | scanbytes (src : Nat) | scanstring (src : Nat)
   | scanbuffer (src : Nat) (nuls : Nat) | create (src : Nat) (size : Nat) | switch (b : Nat)
@@ -39,7 +39,7 @@ deriving Repr, Inhabited, DecidableEq
 structure ABuf where
   pending : List UInt8 := []
   atBol : Bool := true
-  lineno : Nat := 1
+  lineno : Int := 1
   /-- the source a refill would read from (`none`: in-memory buffer, no refills) -/
   file : Option Nat := none
   /-- bytes of `file` not yet delivered into `pending` are represented eagerly: `pending` already
@@ -55,13 +55,14 @@ structure AState where
   yyin : Option Nat := some 0          -- source `yyin` points at
   start : Nat := 0
   sstack : List Nat := []
-  lineno : Nat := 1                    -- the non-reentrant scanner's yylineno
+  lineno : Int := 1                    -- the non-reentrant scanner's yylineno
   srcs : Array (List UInt8) := #[]
   wraps : List (Option Nat) := []
   acts : Array (List Op) := #[]
   actCounter : Nat := 0
   out : Array String := #[]
   halted : Bool := false               -- fatal error happened
+  eofSeen : Bool := false              -- the last yylex call returned 0
   -- the token being processed by the running action
   text : List UInt8 := []
   morePrefix : Nat := 0                -- length of the yymore-carried prefix inside `text`
@@ -95,14 +96,14 @@ def setCurBuf (s : AState) (b : ABuf) : AState :=
 def fatal (s : AState) (cls : String) : AState := { (s.emit s!"fatal {cls}") with halted := true }
 
 def getLineno (cfg : Cfg) (s : AState) : Int :=
-  if !cfg.hasLineno then -1 else if cfg.reentrant then (s.curBuf.lineno : Int) else (s.lineno : Int)
+  if !cfg.hasLineno then -1 else if cfg.reentrant then s.curBuf.lineno else s.lineno
 
 def addLineno (cfg : Cfg) (s : AState) (d : Int) : AState :=
   if !cfg.hasLineno then s
   else if cfg.reentrant then
     let b := s.curBuf
-    s.setCurBuf { b with lineno := (b.lineno + d).toNat }
-  else { s with lineno := (s.lineno + d).toNat }
+    s.setCurBuf { b with lineno := b.lineno + d }
+  else { s with lineno := s.lineno + d }
 
 /-- make sure there is a current buffer (the scanner creates one over `yyin` on demand) -/
 def ensureBuf (s : AState) : AState :=
@@ -265,6 +266,7 @@ def runAction (M : Matcher) (cfg : Cfg) (s : AState) : List Op → AState × Act
     match op with
     | .less n =>
       -- keep the first n characters of yytext, return the rest to the input
+      let n := s.morePrefix + n % (s.text.length - s.morePrefix + 1)
       let keep := s.text.take n
       let back := s.text.drop n
       let b := s.curBuf
@@ -293,14 +295,15 @@ def runAction (M : Matcher) (cfg : Cfg) (s : AState) : List Op → AState × Act
 
 /-- try the alternatives of the current position in REJECT order until an action does not reject -/
 def runAlternatives (M : Matcher) (cfg : Cfg) (s : AState) (inp : List UInt8) (prefix_ : List UInt8)
-    (bufBefore : ABuf) (linenoBefore : Nat) : List (Nat × Nat) → AState × ActEnd
+    (bufBefore : ABuf) (linenoBefore : Int) : List (Nat × Nat) → AState × ActEnd
   | [] => (s.fatal "jammed", .halt)
   | (len, rule) :: rest =>
     -- every alternative starts from the state the token started in
     let s0 := (s.setCurBuf bufBefore)
     let s0 := if cfg.reentrant then s0 else { s0 with lineno := linenoBefore }
     let s1 := beginMatch M cfg s0 inp len rule prefix_
-    let (s2, script) := s1.nextScript
+    -- the default rule's action (ECHO) is not user code: it takes no script
+    let (s2, script) := if rule == cfg.numRules then (s1, []) else s1.nextScript
     let (s3, e) := runAction M cfg { s2 with moreFlag := false } script
     match e with
     | .rejected => runAlternatives M cfg s3 inp prefix_ bufBefore linenoBefore rest
@@ -343,7 +346,12 @@ def runMain (M : Matcher) (cfg : Cfg) (fuel : Nat) (s : AState) : List Op → AS
   | op :: ops =>
     if s.halted then s.emit "end" else
     match op with
-    | .lex => runMain M cfg fuel (lexCall M cfg fuel s) ops
+    | .lex force =>
+      if s.eofSeen && !force then runMain M cfg fuel s ops
+      else
+        let s' := lexCall M cfg fuel s
+        let eof := s'.out.back? == some "ret 0"
+        runMain M cfg fuel { s' with eofSeen := eof } ops
     | .input => runMain M cfg fuel (inputOp cfg s (s.wraps.length + 2)) ops
     | .unput c =>
       let s := s.ensureBuf
@@ -357,6 +365,6 @@ def runMain (M : Matcher) (cfg : Cfg) (fuel : Nat) (s : AState) : List Op → AS
     | op =>
       match commonOp cfg s op with
       | some s' => runMain M cfg fuel s' ops
-      | none => runMain M cfg fuel (bufferOp cfg s op) ops
+      | none => runMain M cfg fuel { (bufferOp cfg s op) with eofSeen := false } ops
 
 end FlexVerif
